@@ -24,6 +24,9 @@ DEST_STATES = {
     "dir_sgid_sticky": ("d", [dict(t="d", p="d", m=0o3775)]),
     "file_sgid": ("d", [dict(t="f", p="d", c=b"hello\n", m=0o2644)]),
     "dir_full": ("d", [dict(t="d", p="d", m=0o750), dict(t="f", p="d/inner", c=b"x", m=0o644)]),
+    # a directory tree: empty sub-directories (alone and in a chain), files beside them, a link inside
+    "dir_tree": ("d", [dict(t="d", p="d", m=0o755), dict(t="d", p="d/empty", m=0o755), dict(t="d", p="d/chain", m=0o700), dict(t="d", p="d/chain/in", m=0o755),
+                       dict(t="d", p="d/chain/in/most", m=0o755), dict(t="d", p="d/full", m=0o755), dict(t="f", p="d/full/f", c=b"x", m=0o600), dict(t="l", p="d/ln", to="d/full")]),
     "link_file": ("d", [dict(t="f", p="tf", c=b"other", m=0o640), dict(t="l", p="d", to="tf")]),
     "link_dir": ("d", [dict(t="d", p="td", m=0o755), dict(t="l", p="d", to="td")]),
     "dangling": ("d", [dict(t="l", p="d", to="nowhere")]),
@@ -54,6 +57,9 @@ TEMPLATE_SRC = {
     "dir": ([dict(t="d", p="s", m=0o755)], None),
 }
 CONTENTS = ["hello\n", "", "no newline", "café ✓\n", "nul\x00inside\n"]
+TEMPLATE_NAMES = [".yml", ".yaml.j2", ".json", ".html", ".htm.j2", ".xml", ".js", ".txt.j2"]
+TEMPLATE_NAMED_TEXT = b"name: {{ v }}\nmarkup: {{ '<a href=\"x\">&amp;</a>' }}\nquote: {{ \"it's\" }}\n"
+TEMPLATE_NAMED_RENDERED = "name: val\nmarkup: <a href=\"x\">&amp;</a>\nquote: it's\n"
 BIG_CONTENTS = ["x" * 8191 + "\u00e9\u00e9\u00e9\n", "y" * 65535 + "\u2713 end"]
 MODES = [None, "0644", "644", "0600", "0444", "4755", "2750", "1777", "7777", "0000", "000",
          "preserve", "abc", "99", "07777", "é75", "+644", "8644"]
@@ -83,6 +89,9 @@ def all_tasks(tier):
         for st in FILE_STATES:
             for m in fmodes:
                 yield dnodes, dict(kind="file", path=dest, state=st, mode=m)
+        # template sources whose NAME ends in an extension (.yml, .html.j2 ...): the text is rendered as it is, whatever the name
+        for ext in TEMPLATE_NAMES:
+            yield dnodes + [dict(t="f", p="s" + ext, c=TEMPLATE_NAMED_TEXT, m=0o644)], dict(kind="template", src="s" + ext, dest=dest, mode=None, rendered=TEMPLATE_NAMED_RENDERED)
 
 
 def octal_sweep_tasks():
